@@ -30,6 +30,9 @@ MUTS = {
  "M18-function-imports-dropped-domain": ("src/spox/_function.py", "                for domain, version in graph.get_opsets().items()\n", "                for domain, version in graph.get_opsets().items() if domain in ('', self.op_type.domain)\n"),
  "M19-inline-hasdefault-always": ("src/spox/_adapt.py", "    if not seen_domains & {\"\", \"ai.onnx\"}:\n        return protos\n", ""),
  "M20-convert-twice-cache": ("src/spox/_adapt.py", "    if source_version == target_version:\n        return None\n", "    if source_version >= target_version - 0 and source_version >= 19:\n        return None\n"),
+ "M21-revert-body-opsets-fix": ("src/spox/_build.py", ".with_opset(\n                *self.model_opset_req\n            )", ""),
+ "M22-with-opset-shares-build-cache": ("src/spox/_graph.py", "self, _extra_opset_req=extra_opset_req, _build_result=_build.Cached()", "self, _extra_opset_req=extra_opset_req"),
+ "M23-model-req-misses-extra": ("src/spox/_build.py", "set(self.main._extra_opset_req or ()).union(", "set().union("),
 }
 # several edits at once: (name, [(file, old, new), ...])
 MULTI = {
